@@ -541,6 +541,7 @@ pub fn run_check(replay: Option<Value>) -> i32 {
         };
         out.events = plain.st.n_ode;
         let stats = |s: &Solution| (s.nfev, s.njev, s.nlu, s.nstep, s.naccpt, s.nrejct);
+        let mut events_seen: Option<(String, Vec<Vec<u64>>)> = None;
         for subset in 0..8u32 {
             let mut c = c0.clone();
             let (with_te, with_dense, with_ev) = (subset & 1 != 0, subset & 2 != 0, subset & 4 != 0);
@@ -559,6 +560,20 @@ pub fn run_check(replay: Option<Value>) -> i32 {
             }
             let label = format!("{{{}{}{}}}", if with_te { "t_eval " } else { "" }, if with_dense { "dense " } else { "" }, if with_ev { "events" } else { "" });
             let (r1, r2) = (run(&p, &c), run(&p, &c));
+            // the events that are reported do not depend on the other two options either
+            if with_ev {
+                if let Some(s) = r1.sol() {
+                    let tev: Vec<Vec<u64>> = s.t_events.iter().map(|l| l.iter().map(|t| t.to_bits()).collect()).collect();
+                    match &events_seen {
+                        None => events_seen = Some((label.clone(), tev)),
+                        Some((l0, t0)) => {
+                            if *t0 != tev {
+                                viol!("events-differ", format!("subset {} reports other event times than subset {}: {:?} vs {:?}", label, l0, s.t_events.iter().map(|l| l.len()).collect::<Vec<_>>(), t0.iter().map(|l| l.len()).collect::<Vec<_>>()));
+                            }
+                        }
+                    }
+                }
+            }
             out.events += r1.st.n_ode + r2.st.n_ode;
             let (s1, s2) = match (&r1.out, &r2.out) {
                 (Outcome::Ok(a), Outcome::Ok(b)) => (a, b),
